@@ -53,34 +53,38 @@ func VerifWorkerGraphs() []map[uint64]map[TaskName]*Task {
 	return out
 }
 
+// VerifResultIndex returns the invocation index of a result.
+func VerifResultIndex(r *Result) uint64 { return r.invIndex }
+
 // VerifRecompile compiles the invocation of task t again, optionally after a
-// gob round trip of the invocation (as it travels to workers).
-func VerifRecompile(t *Task, machineCombiners, gobTrip bool) ([]*Task, error) {
+// gob round trip of the invocation (as it travels to workers). Invocation
+// references among the arguments are resolved with resolve, as a worker
+// resolves them against its own table of compiled invocations.
+func VerifRecompile(t *Task, machineCombiners, gobTrip bool, resolve func(index uint64) *Result) ([]*Task, error) {
 	inv := t.Invocation
+	// bigmachineExecutor.addInvocation replaces *Result arguments by
+	// invocation references in place; work on a copy.
+	inv.Args = append([]interface{}(nil), inv.Args...)
 	if gobTrip {
-		// As bigmachineExecutor.addInvocation does: *Result arguments travel
-		// as invocation references.
-		enc := inv
-		enc.Args = append([]interface{}(nil), inv.Args...)
-		for i, arg := range enc.Args {
+		for i, arg := range inv.Args {
 			if r, ok := arg.(*Result); ok {
-				enc.Args[i] = invocationRef{r.invIndex}
+				inv.Args[i] = invocationRef{r.invIndex}
 			}
 		}
 		var b bytes.Buffer
-		if err := gob.NewEncoder(&b).Encode(enc); err != nil {
+		if err := gob.NewEncoder(&b).Encode(inv); err != nil {
 			return nil, err
 		}
 		var dec execInvocation
 		if err := gob.NewDecoder(&b).Decode(&dec); err != nil {
 			return nil, err
 		}
-		for i, arg := range dec.Args {
-			if _, ok := arg.(invocationRef); ok {
-				dec.Args[i] = inv.Args[i]
-			}
-		}
 		inv = dec
+	}
+	for i, arg := range inv.Args {
+		if ref, ok := arg.(invocationRef); ok {
+			inv.Args[i] = resolve(ref.Index)
+		}
 	}
 	return compile(inv, inv.Invoke(), machineCombiners)
 }
